@@ -60,6 +60,19 @@ CLAIMED = {
          "labelled so in the evidence. Known finding KF-C12-dirty-restamp (dirty objects are re-stamped when the clock advanced) is listed in "
          "known_findings.json and identified narrowly."),
    design="DESIGN.md §4 C12, §5.1"),
+ "C03": dict(
+   level="exploration",
+   technique="deterministic simulation: seeded GitFlow / trunk workflow histories observed with `zerv flow` under a simulated wall clock, judged by independent SemVer / PEP 440 comparators with the clause chosen from a reference model",
+   text=("Seeded workflow actors (branch, commit with skewed clocks, dirty / clean, merge, fast-forward, detach, reset, release = tag HEAD with the public part "
+         "of flow's own output, next final release) drive a real repository starting from a random final tag; one flag set per run (11 standard presets, post "
+         "mode, hash length 1-10, default / custom branch rules, label / number overrides). At every observation point the real `zerv flow` is run for semver and "
+         "pep440 at the simulated instant (dev.<SIM_NOW> across [0, 2^32)) and judged: exact X.Y.Z at a clean final tag; X.Y.Z < V < X.Y.(Z+1) for every other "
+         "state; strictly greater with more commits on the same branch / tag / first-parent chain in commit post-mode; a pre-release tag of flow's shapes printed "
+         "unchanged. Which clause applies is decided from the reference model (C02's oracle), the order by comparators written from SemVer 2.0.0 §11 and PEP 440."),
+   note=("Sampling. Clauses are evaluated only where the model says the base tag is unique and (clause 3) the post mode is known to be `commit`. 21 known findings "
+         "(fixed presets that project components away or always append context, and --hash-branch-len 10) are listed in known_findings.json, each keyed by "
+         "clause + preset (+ format); every other preset, clause and state still alarms."),
+   design="DESIGN.md §4 C03, §5.2, §5.4"),
 }
 
 NA = {
